@@ -44,13 +44,29 @@ impl Config for DbCfg {
 pub const SEED: u64 = 0;
 
 pub async fn new_mem_engine(sh: &Arc<Shared>) -> Arc<Engine<MemCfg>> {
-    let mut e = Engine::<MemCfg>::new_with(
-        Plugin::default(),
-        YFactory(InMemoryStorageEngineFactory),
-        SeededStableHasherBuilder::<Sip128Hasher>::new(SEED),
-    )
-    .await
-    .unwrap();
+    new_mem_engine_opt(sh, false).await
+}
+
+/// `yield_each_query`: the engine's own cooperative yield at every query.
+pub async fn new_mem_engine_opt(
+    sh: &Arc<Shared>,
+    yield_each_query: bool,
+) -> Arc<Engine<MemCfg>> {
+    let opts = qbice::engine::EngineOptions::builder()
+        .yield_frequency(if yield_each_query {
+            qbice::engine::YieldFrequency::EveryNQuery(0)
+        } else {
+            qbice::engine::YieldFrequency::Never
+        })
+        .build();
+    let mut e = Engine::<MemCfg>::new_with_options()
+        .serialization_plugin(Plugin::default())
+        .storage_engine_factory(YFactory(InMemoryStorageEngineFactory))
+        .stable_hasher(SeededStableHasherBuilder::<Sip128Hasher>::new(SEED))
+        .options(opts)
+        .build()
+        .await
+        .unwrap();
     pq::register_all(&mut e, sh);
     Arc::new(e)
 }
